@@ -100,6 +100,7 @@ Fixpoint sexp_val (fuel : nat) (x : sexp) : option gval :=
         else if atom_is t "s" then option_map GStr (atom_bytes v)
         else if atom_is t "str" then option_map (fun b => GStringer (Some b)) (atom_bytes v)
         else if atom_is t "strptr" then option_map (fun b => GStringer (Some b)) (atom_bytes v)
+        else if atom_is t "jnum" then option_map (fun b => GStringer (Some b)) (atom_bytes v)
         else if atom_is t "o" then option_map GOther (atom_N v)
         else None
     | SList (Atom t :: kvs) =>
